@@ -3,8 +3,8 @@ package main
 import (
 	"encoding/json"
 	"fmt"
-	"os"
 	"math/rand"
+	"os"
 	"strings"
 	"time"
 
